@@ -1315,9 +1315,10 @@ fn filter_text_strikeout(s: &str) -> Option<String> {
     let mut result = String::new();
     for c in s.chars() {
         result.push(c);
-        if UnicodeWidthChar::width(c).unwrap_or(0) > 0 {
+        if !c.is_whitespace() && UnicodeWidthChar::width(c).unwrap_or(0) > 0 {
             // This is a character with width (not a combining or other character)
-            // so add a strikethrough combiner.
+            // so add a strikethrough combiner.  Whitespace is left alone: a struck
+            // space would no longer be whitespace to the word wrapper.
             result.push('\u{336}');
         }
     }
